@@ -105,6 +105,7 @@ package stgutg
 
 //@ func ManageError
 //@ prop C19
+//@ exitnonzero
 //@ ensures returns: err == nil
 
 //@ func ManageNGSetup
